@@ -58,9 +58,13 @@ class C09(Prop):
             "(each of the 7 attributes is the ONLY difference for some pair; equal checksums, md5-only difference, all-different), same / "
             "different variants and arches incl. src/nosrc/unknown arches, the same object filed repeatedly, header 0.0/1.0/1.1/1.2/2.0: "
             "result and Images.images after EVERY step, real vs model, and the Uniq / refusal / no-spurious-refusal oracle written "
-            "independently of identify_image; documents (1.0/1.1/1.2/2.0) with and without injected collisions through loads; "
+            "independently of identify_image; GATE-CROSSING histories on one object (add / dumps / header.version assignment / loads into the "
+            "same object, header and images after every step): an add at a header >= 1.1 must be refused against ANY image present, a step at "
+            "an enforcing version creates no new colliding pair; "
+            "documents (1.0/1.1/1.2/2.0) with and without injected collisions through loads; "
             "identify_image(object) vs identify_image(serialised dict) vs the spec tuple; non-trivial = history with >= 1 accepted add")
-    assumptions = ["image objects are not mutated after they were filed (add_checksum / attribute assignment are outside the quantifier)",
+    assumptions = ["the object after a FAILED loads into a used object is not modelled (histories end there)",
+                   "image objects are not mutated after they were filed (add_checksum / attribute assignment are outside the quantifier)",
                    "values compared by == are str/int/bool/None/list/dict of those (no floats: 1 == 1.0 is outside the model)"]
     partial = {}
 
@@ -68,7 +72,7 @@ class C09(Prop):
     def cases(self, rng, tier, budget):
         t = F.tables()
         attrs = list(ATTR_VARIANTS)
-        n_hist = int(budget * 0.6)
+        n_hist = int(budget * 0.45)
         for n in range(n_hist):
             attr = attrs[n % len(attrs)]
             pool = gen_pool(rng, attr)
@@ -83,6 +87,46 @@ class C09(Prop):
                 else:
                     ops.append([rng.choice(variants), arch, rng.randrange(len(pool))])
             yield {"op": "history", "args": {"version": VERSIONS[n % len(VERSIONS)], "pool": pool, "ops": ops}}
+        # histories that CROSS the version gate on one object: add / dumps (sets the header to the current version) /
+        # header.version assignment / loads into the same object
+        for n in range(int(budget * 0.15)):
+            attr = attrs[n % len(attrs)]
+            pool = gen_pool(rng, attr)
+            variants = rng.sample(F.VARIANTS, 2)
+            arches = rng.sample(t["arches"], 2)
+            compose = F.gen_compose(rng, t) if rng.random() < 0.7 else {}      # {}: dumps raises, AFTER the header was set
+
+            def one_doc(ver, idxs):
+                spec = {"version": ver, "compose": F.gen_compose(rng, t), "pool": [copy.deepcopy(pool[i]) for i in idxs],
+                        "adds": [[rng.choice(variants), rng.choice(arches), k] for k in range(len(idxs))]}
+                d = F.doc_of_spec(spec, ver)
+                if ver == "1.0" and rng.random() < 0.5:
+                    for vv in d["payload"]["images"].values():
+                        for c in vv.values():
+                            for r in c:
+                                r.pop("subvariant", None)
+                return d
+
+            def adds(k):
+                return [["add", rng.choice(variants), rng.choice(arches + ["x86_64"]) if rng.random() < 0.92 else rng.choice(["src", "nosrc", "bogus"]),
+                         rng.randrange(len(pool))] for _ in range(k)]
+            ops = []
+            r = rng.random()
+            if r < 0.25:
+                ops.append(["loads", one_doc(rng.choice(["1.0", "1.0", "1.1"]), rng.sample(range(len(pool)), rng.randint(1, 2)))])
+            elif r < 0.45:
+                ops.append(["set_version", rng.choice(["1.0", "0.9", "1.1"])])
+            ops += adds(rng.randint(1, 3))
+            for _ in range(rng.randint(1, 2)):
+                c = rng.random()
+                if c < 0.45:
+                    ops.append(["dumps"])
+                elif c < 0.75:
+                    ops.append(["set_version", rng.choice(["1.1", "1.2", "2.0", "1.0"])])
+                else:
+                    ops.append(["loads", one_doc(rng.choice(["1.2", "1.0"]), [rng.randrange(len(pool))])])
+                ops += adds(rng.randint(1, 4))
+            yield {"op": "xhistory", "args": {"compose": compose, "pool": pool, "ops": ops}}
         for n in range(int(budget * 0.25)):
             ver = ["1.2", "1.1", "1.0", "2.0"][n % 4]
             spec = F.gen(rng, tier, version=ver, max_variants=2, max_arches=2, max_cell=3)
@@ -110,7 +154,7 @@ class C09(Prop):
                         for r in c:
                             r.pop("subvariant", None)
             yield {"op": "load", "args": {"doc": doc}}
-        for n in range(budget - n_hist - int(budget * 0.25)):
+        for n in range(budget - n_hist - int(budget * 0.25) - int(budget * 0.15)):
             img = F.gen_image(rng, n)
             r = rng.random()
             if r < 0.2:
@@ -139,6 +183,30 @@ class C09(Prop):
                 steps.append({"res": res, "cells": cells, "records_ok": not foreign and all(
                     F.record(o) == a["pool"][idx_of[id(o)]] for d in m.images.values() for cell in d.values() for o in cell)})
             return {"steps": steps}
+        if case["op"] == "xhistory":
+            m = im.Images()
+            for f, val in a.get("compose", {}).items():
+                setattr(m.compose, f, copy.deepcopy(val))
+            objs = [F.new_image(im, m, attrs) for attrs in a["pool"]]
+            steps = []
+            for o in a["ops"]:
+                before = m.header.version
+                try:
+                    if o[0] == "add":
+                        m.add(o[1], o[2], objs[o[3]])
+                    elif o[0] == "dumps":
+                        m.dumps()
+                    elif o[0] == "set_version":
+                        m.header.version = o[1]
+                    else:
+                        m.loads(json.dumps(o[1]))
+                    res = "ok"
+                except Exception as e:
+                    res = checklib.err_class(e)
+                steps.append({"res": res, "version_before": before, "version": m.header.version, "cells": F.snap_cells(m.images)})
+                if o[0] == "loads" and res != "ok":
+                    break                                   # a failed loads leaves the object half updated: histories end there
+            return {"steps": steps}
         if case["op"] == "load":
             m = im.Images()
             try:
@@ -166,6 +234,10 @@ class C09(Prop):
         if case["op"] == "history":
             return [{"op": "images_history", "args": {"version": a["version"], "compose": {}, "ops": [
                 {"variant": v, "arch": arch, "id": idx, "image": F.enc(a["pool"][idx])} for v, arch, idx in a["ops"]]}}]
+        if case["op"] == "xhistory":
+            return [{"op": "images_xhistory", "args": {"compose": F.enc(a.get("compose", {})), "ops": [
+                (["add", o[1], o[2], o[3], F.enc(a["pool"][o[3]])] if o[0] == "add" else (["loads", F.enc(o[1])] if o[0] == "loads" else o))
+                for o in a["ops"]]}}]
         if case["op"] == "load":
             return [{"op": "images_loads", "args": {"doc": F.enc(a["doc"])}}]
         if case["op"] == "identify":
@@ -176,6 +248,10 @@ class C09(Prop):
         if case["op"] == "history":
             return {"steps": [{"res": s["res"], "cells": dict((v, dict((a, sorted(i for i, _ in cell)) for a, cell in archs)) for v, archs in s["state"])}
                               for s in outs[0]]}
+        if case["op"] == "xhistory":
+            return {"steps": [{"res": st["res"], "version": F.dec(st["version"]),
+                               "cells": dict((v, dict((a, sorted((F.dec(img) for _, img in cell), key=F.rec_key)) for a, cell in archs)) for v, archs in st["state"])}
+                              for st in outs[0]]}
         if case["op"] == "load":
             o = outs[0]
             return {"ok": F.snap_of_model_state(o["ok"])} if "ok" in o else o
@@ -186,6 +262,15 @@ class C09(Prop):
         if case["op"] == "history":
             r = {"steps": [{"res": s["res"], "cells": s["cells"]} for s in real_out["steps"]]}
             return None if checklib.canon(r) == checklib.canon(model_out) else {"real": r, "model": model_out}
+        if case["op"] == "xhistory":
+            def view(steps, ops):
+                out = []
+                for st, o in zip(steps, ops):
+                    failed_load = o[0] == "loads" and st["res"] != "ok"
+                    out.append({"res": st["res"]} if failed_load else {"res": st["res"], "version": st["version"], "cells": st["cells"]})
+                return out
+            r, mo = view(real_out["steps"], case["args"]["ops"]), view(model_out["steps"], case["args"]["ops"])
+            return None if checklib.canon(r) == checklib.canon(mo) and len(real_out["steps"]) == len(model_out["steps"]) else {"real": r, "model": mo}
         if case["op"] == "load":
             return None if checklib.canon(real_out) == checklib.canon(model_out) else {"real": real_out, "model": model_out}
         if case["op"] == "identify":
@@ -232,6 +317,55 @@ class C09(Prop):
                                 "required": "no two filed images agree on the identity tuple and differ in checksums"}
                 prev = st["cells"]
             return None
+        if case["op"] == "xhistory":
+            def recs(cells):
+                return [r for d in cells.values() for c in d.values() for r in c]
+            def bad_pairs(cells):
+                return sorted(json.dumps(sorted(p)) for p in F.uniq_violations(recs(cells)))
+            prev = {}
+            for k, (o, st) in enumerate(zip(a["ops"], real_out["steps"])):
+                ctx = {"step": k, "op": o if o[0] != "loads" else ["loads", "<document of format %s>" % o[1]["header"]["version"]],
+                       "header_before": st["version_before"], "header_after": st["version"], "result": st["res"],
+                       "history": [(x if x[0] != "loads" else ["loads", x[1]["header"]["version"]]) for x in a["ops"][:k + 1]]}
+                if o[0] == "add":
+                    vp = F.version_pair(st["version_before"]) if isinstance(st["version_before"], str) else None
+                    enforce = vp is not None and vp >= (1, 1)
+                    new = a["pool"][o[3]]
+                    collide = [r["path"] for r in recs(prev) if F.identity7(r) == F.identity7(new) and r["checksums"] != new["checksums"]]
+                    arch_ok = o[2] in t["all_arches"] and o[2] not in ("src", "nosrc")
+                    ctx["colliding_with"] = collide
+                    if (not arch_ok) or (enforce and collide):
+                        if st["res"] != {"err": "ValueError"}:
+                            return {"kind": "missing-refusal", "observed": ctx,
+                                    "required": "ValueError: the header says %s, the manifest already holds an image of the same identity with different "
+                                                "checksums (whenever and however it got there)" % st["version_before"] if arch_ok else "ValueError (arch not admissible)"}
+                        if st["cells"] != prev:
+                            return {"kind": "refusal-changed-state", "observed": ctx, "required": "a refused add leaves the manifest as it was"}
+                    else:
+                        if st["res"] != "ok":
+                            return {"kind": "spurious-refusal", "observed": ctx, "required": "accepted: admissible arch and no identity collision with different checksums"}
+                        cell = st["cells"].get(o[1], {}).get(o[2], [])
+                        if new not in cell or any(r not in recs(st["cells"]) for r in recs(prev)) or len(recs(st["cells"])) > len(recs(prev)) + 1:
+                            return {"kind": "wrong-filing", "observed": ctx, "required": "the image is filed under the given variant and arch, nothing else changes"}
+                    step_enforces = enforce
+                elif o[0] in ("dumps", "set_version"):
+                    if st["cells"] != prev:
+                        return {"kind": "cells-changed", "observed": ctx, "required": "%s does not touch the images" % o[0]}
+                    step_enforces = False
+                else:
+                    vp = F.version_pair(o[1]["header"]["version"])
+                    step_enforces = vp is not None and vp >= (1, 1) and st["res"] == "ok"
+                    if st["res"] == "ok" and any(r not in recs(st["cells"]) for r in recs(prev)):
+                        return {"kind": "image-lost", "observed": ctx, "required": "loads adds to the images already present"}
+                if step_enforces:
+                    newbad = [p for p in bad_pairs(st["cells"]) if p not in bad_pairs(prev)]
+                    if newbad:
+                        return {"kind": "uniq-broken", "observed": dict(ctx, new_pairs=newbad),
+                                "required": "a step taken at format >= 1.1 never puts two images of equal identity and different checksums side by side"}
+                if o[0] == "loads" and st["res"] != "ok":
+                    break
+                prev = st["cells"]
+            return None
         if case["op"] == "load":
             doc = a["doc"]
             vp = F.version_pair(doc["header"]["version"])
@@ -264,7 +398,7 @@ class C09(Prop):
             return None
 
     def nontrivial(self, case, real_out):
-        if case["op"] == "history":
+        if case["op"] in ("history", "xhistory"):
             return any(s["res"] == "ok" for s in real_out["steps"])
         return True
 
@@ -277,13 +411,20 @@ class C09(Prop):
             inc("history.steps", len(real_out["steps"]))
             for s in real_out["steps"]:
                 inc("history.res:" + ("ok" if s["res"] == "ok" else s["res"]["err"]))
+        elif case["op"] == "xhistory":
+            inc("xhistory.steps", len(real_out["steps"]))
+            for o, st in zip(case["args"]["ops"], real_out["steps"]):
+                inc("xhistory.%s:%s" % (o[0], "ok" if st["res"] == "ok" else st["res"]["err"]))
+                if o[0] == "add" and isinstance(st["version_before"], str):
+                    vp = F.version_pair(st["version_before"])
+                    inc("xhistory.add@%s" % ("enforcing" if vp and vp >= (1, 1) else "closed-gate"))
         elif case["op"] == "load":
             inc("load.%s:%s" % (case["args"]["doc"]["header"]["version"], "ok" if "ok" in real_out else real_out["err"]))
 
     def shrink_candidates(self, case):
         a = case["args"]
         out = []
-        if case["op"] == "history":
+        if case["op"] in ("history", "xhistory"):
             for i in range(len(a["ops"])):
                 c = copy.deepcopy(case); del c["args"]["ops"][i]
                 if c["args"]["ops"]:
@@ -302,6 +443,6 @@ PROP = C09()
 
 MANIFEST = dict(
     technique="Lean 4 proof over an executable model of Images.add that RUNS THE STATEMENT LIST READ FROM THE SOURCE (tools/gen_images.py) with the generated identity tuple and version gate: invariant by induction over unbounded histories and over the loops of the reader; refusal-changes-nothing from the order of effects; differential check of every step against the real library + Uniq oracle written independently of identify_image",
-    text="C09_tuple (decide): the code's identity tuple is the documented seven attributes. C09_script (decide on the regenerated statement list): nothing that can raise follows the insertion, the insertion follows the scan. C09_step / C09_reachable / C09_reachable_from: for any header version on which the generated gate (>= 1.1) is on, any history of adds of any length keeps Uniq. C09_refusal: a raising add returns the identical state (any version); C09_refusal_class: it is ValueError; C09_accepts: no spurious refusal. C09_load: every manifest deserialised from a >= 1.1 document is Uniq; C09_load_rejects: a document of any enforcing version (1.1 with its src re-filing included; entries under a src key of a <= 1.1 document excepted, they are re-filed or dropped) containing a colliding pair is rejected. C09_identity: identify(object) = identify(serialised dict) for every image that validates. C09_below_witness: under 0.0 / 1.0 a colliding pair is accepted (F11).",
+    text="C09_tuple (decide): the code's identity tuple is the documented seven attributes. C09_script (decide on the regenerated statement list): nothing that can raise follows the insertion, the insertion follows the scan. C09_step / C09_reachable / C09_reachable_from: for any header version on which the generated gate (>= 1.1) is on, any history of adds of any length keeps Uniq. C09_refusal: a raising add returns the identical state (any version); C09_refusal_class: it is ValueError; C09_accepts: no spurious refusal. C09_load: every manifest deserialised from a >= 1.1 document is Uniq; C09_load_rejects: a document of any enforcing version (1.1 with its src re-filing included; entries under a src key of a <= 1.1 document excepted, they are re-filed or dropped) containing a colliding pair is rejected. C09_identity: identify(object) = identify(serialised dict) for every image that validates. C09_below_witness: under 0.0 / 1.0 a colliding pair is accepted (F11). Gate-crossing histories (the version is state: dumps sets it, loads replaces it, callers assign it): C09_no_new_pair / C09_add_guard - for ANY state, an add at an enforcing version creates no new colliding pair and an accepted one collides with nothing present; C09_dumps_enforces; C09_history_pairs / C09_history - any sequence of add / dumps / set-version / loads-into-the-same-object whose adds and loads happen at enforcing versions creates no new pair, hence keeps Uniq; C09_load_into; C09_cross_witness (add, dumps, colliding add -> ValueError).",
     note="Mutating an Image after it was filed is outside the property's quantifier (histories of add calls / loaded files).",
     ref="7/C09")
